@@ -16,8 +16,8 @@ with) the list.
 
 What IS true, `c17_partial`: if no step of a `create`/`drop` falls between the first and the last step of any `send`
 — formally: the execution is a sequence of *phases*, each either a legal sequential history of completed operations
-(churn, `Phase.churn`) or a concurrent execution of `send`/`poll`/`release` micro-steps by any number of threads
-(`Phase.fan`) after which every thread that acted is idle again — then every phase starts in a quiescent well-formed
+(churn, `Phase.churn`, which may `cancel` listeners) or a concurrent execution of `send`/`poll`/`release`/`cancel`
+actions and micro-steps by any number of threads (`Phase.fan`) after which every thread that acted is idle again — then every phase starts in a quiescent well-formed
 state, so all of C03 holds for every fan-out phase with `L` = the listeners live at its start, for arbitrarily many
 rounds of churn in between.  Missing for the full claim: any overlap of a `create`/`drop`/`sync` micro-step with a
 `send` (false, see above) and — not needed for the counterexamples, simply not covered — `poll`s overlapping churn and
@@ -39,7 +39,7 @@ theorem c17_partial (mx n : Nat) (f : Flavor) (d : Bool) (ps : List Phase) (hps 
     let s := run s₀ as
     WF s₀ ∧ Reachable mx n f d s ∧
       (s.used = s₀.used ∧ s.count = s₀.count ∧ s.vacant = s₀.vacant ∧ s.live = s₀.live ∧ s.slock = s₀.slock ∧
-        s.keep = s₀.keep) ∧
+        ∀ j, s.keep j = if j ∈ cancelIds as then false else s₀.keep j) ∧
       ∃ P S D, s.pubs = s₀.pubs ++ P ∧ s.sent = s₀.sent ++ S ∧ s.delivered = s₀.delivered ++ D ∧
         (∀ ev ∈ S, ∀ l, P.count (ev, l) = if l ∈ s₀.live then 1 else 0) ∧
         (∀ ev l, P.count (ev, l) ≤ 1) ∧ (∀ ev l, l ∉ s₀.live → (ev, l) ∉ P) ∧
@@ -64,10 +64,10 @@ def churnPhases : List Phase :=
   [.churn [.create, .create, .create],
    .fan [.send 1 7, .send 2 8, .step 1, .step 2, .step 2, .step 1, .step 1, .step 2, .step 2, .step 1, .ack 1, .ack 2,
          .poll 3 0, .step 3, .ack 3],
-   .churn [.drop 0, .create, .drop 1]]
+   .churn [.cancel 0, .poll 0, .drop 0, .create, .cancel 1, .drop 1]]
 
 def lastFan : List Act :=
-  [.send 1 9, .send 2 10, .step 2, .step 1, .step 1, .step 2, .step 2, .step 1, .ack 1]
+  [.send 1 9, .send 2 10, .step 2, .step 1, .cancel 2, .step 1, .step 2, .step 2, .step 1, .ack 1]
 
 example :
     PhasesOK (init 3 8 .ogreArc true) churnPhases ∧ (∀ a ∈ lastFan, FanAct a) ∧ (sendEvs lastFan).Nodup ∧
